@@ -1,6 +1,6 @@
 """C07 — acceleration shortcuts never change an answer (structural necessary conditions)."""
 from .. import facts, run
-from ..rules import dep
+from ..rules import dep, footprint
 
 
 def main(tier):
@@ -12,6 +12,7 @@ def main(tier):
     dep.surface_pairing(P, rep)
     dep.surface_fallback(P, rep)
     dep.alias_callers(P, rep)
+    footprint.alias_wrappers(P, rep)
     rep.assumptions.append("whether the numeric size of the spherical buffer is large enough near the poles, and the kd-tree pruning "
                            "arithmetic, are NOT decided (DESIGN.md §4 C07)")
     rep.explanation = ("Dependence sets of every culling bound (depth cut-off, bounding box) against what the exact extent depends on, "
